@@ -1454,8 +1454,13 @@ class SocketTimeout(registry.PositiveInteger):
     def setValue(self, v):
         if v < supybot.drivers.poll() or v < 1:
             self.error()
+        try:
+            socket.setdefaulttimeout(v)
+        except OverflowError:
+            # Too large for a socket timeout; reject it before the value
+            # is changed.
+            self.error()
         registry.PositiveInteger.setValue(self, v)
-        socket.setdefaulttimeout(self.value)
 
 registerGlobalValue(supybot, 'defaultSocketTimeout',
     SocketTimeout(10, _("""Determines what the default timeout for socket
